@@ -696,9 +696,41 @@ Fixpoint used_funcs (fuel : nat) (m : model) (r : gref) (used : list opid) : lis
         end
       end) (rec_nodes (S f) m r) used
   end.
-Definition remove_unused_funcs (fuel : nat) (m : model) : model :=
-  let used := used_funcs fuel m GMain [] in
-  mkModel (m_main m) (m_subs m) (filter (fun fn => existsb (opid_eqb (f_id fn)) used) (m_funcs m)).
+Definition keep_func (ids : list opid) (fn : func) : bool := existsb (opid_eqb (f_id fn)) ids.
+Definition drop_funcs (ids : list opid) (m : model) : model :=
+  mkModel (m_main m) (m_subs m) (filter (keep_func ids) (m_funcs m)).
+Definition remove_unused_funcs (fuel : nat) (m : model) : model := drop_funcs (used_funcs fuel m GMain []) m.
+
+(* A decidable certificate that dropping the functions outside `ids` cannot be observed from the main graph: `LN` is a set
+   of node keys (the live region) containing the main graph and the kept function bodies, closed under "subgraph of a live
+   node", whose calls go to kept functions only and whose inputs / outputs are never produced by a node outside LN.  Attribute
+   parameters never carry graphs (so resolving a reference attribute cannot make a subgraph appear). *)
+Definition no_graph_attrs (l : list (str * attr)) : bool := forallb (fun ka => negb (is_graph_attr (snd ka))) l.
+Definition live_value (m : model) (LN : list vid) (w : vid) : bool :=
+  match find_prod (all_nodes m) w with None => true | Some (n, _) => memN (node_key n) LN end.
+Definition nodes_live (LN : list vid) (ns : list node) : bool := forallb (fun n => memN (node_key n) LN) ns.
+Definition live_node_ok (m : model) (ids : list opid) (LN : list vid) (n : node) : bool :=
+  forallb (fun g => match alookup (m_subs m) g with
+                    | Some gr => nodes_live LN (g_nodes gr) && forallb (live_value m LN) (g_outs gr)
+                    | None => true end) (attr_graphs (n_attrs n))
+  && match find_func (m_funcs m) (n_op n) with
+     | Some fn => keep_func ids fn && no_graph_attrs (n_attrs n) && no_graph_attrs (f_defaults fn)
+                  && forallb (live_value m LN) (g_outs (f_body fn))
+     | None => true end
+  && forallb (fun o => match o with Some w => live_value m LN w | None => true end) (n_ins n).
+Definition drop_closedb (m : model) (ids : list opid) (LN : list vid) : bool :=
+  nodes_live LN (g_nodes (m_main m))
+  && forallb (fun fn => negb (keep_func ids fn) || nodes_live LN (g_nodes (f_body fn))) (m_funcs m)
+  && forallb (fun n => negb (memN (node_key n) LN) || live_node_ok m ids LN n) (all_nodes m)
+  && forallb (live_value m LN) (g_outs (m_main m)).
+(* the certificate RemoveUnusedFunctionsPass's model produces for itself *)
+Definition kept_refs (ids : list opid) (m : model) : list gref :=
+  map GFunc (filter (fun i => match nth_error (m_funcs m) i with Some fn => keep_func ids fn | None => false end)
+                    (seq 0 (length (m_funcs m)))).
+Definition live_keys (fuel : nat) (ids : list opid) (m : model) : list vid :=
+  map snd (rec_nodes fuel m GMain ++ flat_map (rec_nodes fuel m) (kept_refs ids m)).
+Definition rmfunc_ok (fuel : nat) (m : model) : bool :=
+  let ids := used_funcs fuel m GMain [] in drop_closedb m ids (live_keys fuel ids m).
 
 (* ---------------------------------------------------------------- reordering (TopologicalSortPass) *)
 (* The exact order is C12's subject.  Here: the relation the sort must satisfy for semantics. *)
